@@ -93,13 +93,29 @@ class C19:
         # the key covers the identity of a tag
         Tag = ctx.index.need_class(f"{DATA}.tags", "Tag")
         fields = [f.name for f in m.fields(Tag)]
-        used = {x[2] for x in walk(key_build) if x[0] == "attr" and x[1] == ("var", "tag")}
+        # a field counts as covered only where it enters the key whole: directly or as an element of a (nested) tuple;
+        # wrapped in a call / attribute access the key sees a projection of it (term -> label, value -> lower-case ...)
+        def direct(t, out, wrapped):
+            if t[0] == "attr" and t[1] == ("var", "tag"):
+                out.add(t[2])
+            elif t[0] == "tuple":
+                for x in t[1]:
+                    direct(x, out, wrapped)
+            else:
+                for x in walk(t):
+                    if x[0] == "attr" and x[1] == ("var", "tag"):
+                        wrapped.append((x[2], t))
+        used, wrapped = set(), []
+        direct(key_build, used, wrapped)
         whole = key_build == ("var", "tag")
         if whole or set(fields) <= used:
             ctx.ok("R19.1", site, f"key covers every declared field of Tag {fields}")
         else:
-            ctx.bad("R19.1", self.file, "SimpleEncoder.__init__", f"key {show(key_build)[:50]} misses Tag fields {sorted(set(fields) - used)}",
-                    f"the encoder key ignores Tag field(s) {sorted(set(fields) - used)}: tags that differ only there are mapped to the "
+            missing = sorted(set(fields) - used)
+            via = {f: t for f, t in wrapped}
+            how = "; ".join(f"`{f}` only enters through `{show(via[f])[:50]}`" if f in via else f"`{f}` is not used" for f in missing)
+            ctx.bad("R19.1", self.file, "SimpleEncoder.__init__", f"key {show(key_build)[:50]} misses Tag fields {missing}",
+                    f"the encoder key does not carry Tag field(s) {missing} whole ({how}): tags that differ only there are mapped to the "
                     f"same index, so a tag maps to index i without being equal to the i-th vocabulary tag", init.node.lineno)
         deep = [x for x in walk(key_build) if x[0] == "attr" and x[1][0] == "attr" and x[1][1] == ("var", "tag")]
         if deep:
